@@ -74,7 +74,7 @@ def correspondence(ctx):
         terms.append(term)
         keep.append({"scenario": scen.jsonable(sc), "observed": scen.jsonable(obs)})
         dist[sc["family"]] = dist.get(sc["family"], 0) + 1
-        if all(o["ok"] for o in obs) and any(abs(v) >= 50 for o in obs for step in o["outs"] for out in step for v in out) or sc["family"] == "resfb":
+        if all(o["ok"] for o in obs) and any(abs(v) >= 50 for o in obs for step in o["outs"] for out in step for v in out) or sc["family"] in ("resfb", "resfb-fun"):
             nt.add(repr(scen.jsonable(sc)))
     failing, err = core.run_cases(ctx.pid, IMPORTS, terms, chunk=60)
     return {"evaluations": n, "distinct_nontrivial": len(nt),
@@ -93,7 +93,7 @@ def _viol(key, what, sc, expected=None, observed=None):
 def _judge(sc):
     """Timing oracle on the real code for 'fbadd' receivers: out_R[t] = x_R[t] + 100 * fb[t] hence fb[t] = (out_R[t] - x_R[t]) / 100;
     the property says fb[t] = sender output at t-1 (pre-existing output at t = 0) or the forced value."""
-    if sc["family"] == "resfb":
+    if sc["family"] in ("resfb", "resfb-fun"):
         return None
     b = scen.Built(sc)
     model = b.models[0]
@@ -281,6 +281,35 @@ def _judge_list_sender(rng, tag):
     return None
 
 
+def _judge_esn_forced(rng, tag):
+    """ESN node with feedback: run(X, forced_feedbacks={readout: F}) must make the reservoir see F[t-1] (zero at t = 0), i.e. equal
+    the explicit recurrence computed with the ESN's own matrices and the forced values"""
+    import reservoirpy as rpy
+    rpy.verbosity(0)
+    from reservoirpy.nodes import ESN
+    T, d = 6, 2
+    X = scen.fl(scengen.rows(rng, T, d)); Y = scen.fl(scengen.rows(rng, T, 1)); Fv = scen.fl(scengen.rows(rng, T, 1, lim=8))
+    e = ESN(units=3, lr=0.5, seed=int(rng.randint(0, 10 ** 6)), ridge=0.5, feedback=True, rc_connectivity=1., input_connectivity=1., fb_connectivity=1.,
+            activation=scen.ACTS["id"], name="esnff%s" % tag)
+    sc = {"tag": tag, "kind": "esn-forced"}
+    try:
+        e.fit(X, Y)
+        res, rd = e.reservoir, e.readout
+        W = np.asarray(res.W.todense() if hasattr(res.W, "todense") else res.W); Win = np.asarray(res.Win.todense() if hasattr(res.Win, "todense") else res.Win)
+        Wfb = np.asarray(res.Wfb.todense() if hasattr(res.Wfb, "todense") else res.Wfb); bias = np.asarray(res.bias.todense() if hasattr(res.bias, "todense") else res.bias).reshape(-1)
+        out = e.run(X, forced_feedbacks={rd.name: Fv}, reset=True, return_states=["reservoir"])["reservoir"]
+    except Exception as ex:  # noqa: BLE001
+        return _viol("esn-run:exception", "ESN.run with forced feedbacks raises %r" % (ex,), sc)
+    r = np.zeros(3)
+    for t in range(T):
+        fb = np.zeros(1) if t == 0 else Fv[t - 1]
+        r = 0.5 * r + 0.5 * (W @ r + Win @ X[t] + bias + Wfb @ fb)
+        if not np.allclose(out[t], r, atol=1e-9):
+            return _viol("esn-run:forced-feedback-ignored", "ESN.run(forced_feedbacks=...): step %d reservoir state %s differs from the recurrence driven by the forced values %s"
+                         % (t, np.asarray(out[t]).tolist(), r.tolist()), sc, r.tolist(), np.asarray(out[t]).tolist())
+    return None
+
+
 def judge(case):
     return _judge(case["scenario"])
 
@@ -297,15 +326,18 @@ def oracle(ctx, scale=1):
             out.append(v)
     for i in range(ctx.n(3, 20)):
         out += _judge_training(rng, "%d_%d" % (ctx.seed, i))
-        v = _judge_list_sender(rng, "%d_%d" % (ctx.seed, i))
-        if v:
-            out.append(v)
+        for v in (_judge_list_sender(rng, "%d_%d" % (ctx.seed, i)), _judge_esn_forced(rng, "%d_%d" % (ctx.seed, i))):
+            if v:
+                out.append(v)
     return {"evaluations": n + ctx.n(3, 20), "violations": out,
             "rule": "feedback value seen by a receiver (recovered from out = x + 100 fb) vs sender's previous output / forced value; fit and train forcing"}
 
 
 def replay(payload):
     sc = payload["scenario"]
+    if sc.get("kind") == "esn-forced":
+        vs = [v for v in (_judge_esn_forced(core.random.Random(i), "rq%d" % i) for i in range(4)) if v]
+        return {"violates": bool(vs), "detail": vs[:1]}
     if sc.get("kind") == "list-sender":
         vs = [v for v in (_judge_list_sender(core.random.Random(i), "rp%d" % i) for i in range(6)) if v]
         return {"violates": bool(vs), "detail": vs[:1]}
